@@ -1,6 +1,7 @@
 package operator
 
 import (
+	"errors"
 	"fmt"
 
 	"reduction.dev/reduction/proto/workerpb"
@@ -8,10 +9,16 @@ import (
 	"reduction.dev/reduction/util/verifhook"
 )
 
+// errCheckpointAbandoned is returned to senders that were waiting on a
+// checkpoint of a deployment that has been replaced.
+var errCheckpointAbandoned = errors.New("checkpoint abandoned by a new deployment")
+
 type checkpoint struct {
 	checkpointID        uint64
 	srIDs               map[string]struct{}
 	allBarriersReceived chan struct{}
+	released            bool // allBarriersReceived is closed
+	abandoned           bool // released because the deployment ended, not because the barriers arrived
 }
 
 func newCheckpoint(checkpointID uint64, srIDs []string) *checkpoint {
@@ -28,9 +35,27 @@ func (c *checkpoint) registerBarrier(senderID string, barrier *workerpb.Checkpoi
 	}
 	delete(c.srIDs, senderID)
 	if len(c.srIDs) == 0 {
-		close(c.allBarriersReceived)
+		c.release()
 	}
 	return nil
+}
+
+// release wakes the waiting senders. Callers hold the operator's write lock.
+func (c *checkpoint) release() {
+	if !c.released {
+		c.released = true
+		close(c.allBarriersReceived)
+	}
+}
+
+// abandon wakes the waiting senders with an error: their events belong to a
+// deployment that no longer exists and must not reach the new one.
+func (c *checkpoint) abandon() {
+	if c == nil {
+		return
+	}
+	c.abandoned = true
+	c.release()
 }
 
 func (c *checkpoint) hasAllBarriers() bool {
@@ -39,16 +64,20 @@ func (c *checkpoint) hasAllBarriers() bool {
 
 // alignSender returns a waiter function that will block requests from senders
 // until all barriers have been received.
-func (c *checkpoint) alignSender(senderID string) (wait func()) {
+func (c *checkpoint) alignSender(senderID string) (wait func() error) {
 	if c == nil {
-		return func() {} // no-op if there is no checkpoint
+		return func() error { return nil } // no-op if there is no checkpoint
 	}
 
 	if _, ok := c.srIDs[senderID]; !ok {
-		return func() {
+		return func() error {
 			verifhook.At("operator.parked", senderID)
 			<-c.allBarriersReceived
+			if c.abandoned {
+				return errCheckpointAbandoned
+			}
+			return nil
 		}
 	}
-	return func() {}
+	return func() error { return nil }
 }
